@@ -121,6 +121,14 @@ for _pid in ("C09", "C10", "C16"):
     CLI_ROUTE[_pid] = ("; command-line cases also in-process (runpy), every case after earlier ones with other options", " The command-line unit exists in two forms: a fresh interpreter per case, and many more cases through runpy in one process, so that options of earlier commands would show if they leaked.")
 CLAIMED["C12"]["tech"] += "; exhaustive enumeration of all set partitions of up to 9/11 tokens into flat root children"
 CLAIMED["C12"]["text"] += " An exhaustive unit deals the tokens 1..n (n <= 9 quick, 11 thorough) out to flat root children in every possible way (all set partitions: every interleaving and crossing), singletons as bare tokens and as unary nodes, and compares each result with the reference; a further random unit scatters tokens over 2-6 root children with inner constituents."
+for _pid, _text in {
+    "C02": " Sentences of 125-262 tokens (three-digit token and node numbers) go through every writer.",
+    "C19": " Sentences of 125-262 tokens (flat with a late phrase, a spine of depth 60, discontinuous around 128 constituents) go through every navigation function and the export numbering.",
+    "C12": " Sentences of 260-300 tokens with unattached root children beyond position 256 are included.",
+    "C17": " The command-line unit also splits into 11, 12 and 13 parts (two-digit part numbers).",
+    "C08": " Fixed treebanks add the constellations random generation rarely produces: one rule under contexts that coincide only after stripping fan-outs, in every order, and treebanks that are already binarized (labels @1X, @X).",
+}.items():
+    CLAIMED[_pid]["text"] += _text
 for _pid, (tech, text) in CLI_ROUTE.items():
     CLAIMED[_pid]["tech"] += tech
     CLAIMED[_pid]["text"] += text
